@@ -52,6 +52,16 @@ fn main() {
             fixed::write_fixed();
             0
         }
+        "gen-corpus" => match build::prepare(&opts, &["fixed".to_string()]).and_then(|_| build::run_bin("fixed", "corpus-write", &opts, &[])) {
+            Ok(_) => {
+                println!("corpus written to /verif/corpus");
+                0
+            }
+            Err(e) => {
+                eprintln!("{}", e);
+                2
+            }
+        },
         "show" => {
             let s: u64 = get("--seed").and_then(|s| s.parse().ok()).unwrap_or(0);
             let (u, _) = build::seeded_universe(s, 0, &opts.tier);
